@@ -592,4 +592,258 @@ theorem localMgStepAt_energy (S : MGSetup K) (h : MGHyp S) :
 
 end final
 
+section fieldonly
+variable {K : Type} [Field K] [DecidableEq K]
+
+theorem length_gatherL' (v : List K) (ind : List ℕ) : (gatherL v ind).length = ind.length := by
+  simp [gatherL]
+
+theorem localMgStepAt_succ' (S : MGSetup K) (lv : ℕ) (x f : LVec K) :
+    localMgStepAt S (lv + 1) x f =
+      mgSmoothC S true (lv + 1)
+        (mgSmoothC S false (lv + 1) x f +
+          ⟨dmv (S.size (lv + 1)) (S.size lv) (S.P lv)
+            (localMgStepAt S lv 0
+              ⟨dmvT (S.size (lv + 1)) (S.size lv) (S.P lv)
+                (f - ⟨dmv (S.size (lv + 1)) (S.size (lv + 1)) (S.A (lv + 1))
+                  (mgSmoothC S false (lv + 1) x f).d⟩).d⟩).d⟩) f := rfl
+
+end fieldonly
+
+/-! ### fixed point of the concrete V-cycle -/
+
+section fixedpoint
+variable {K : Type} [Field K] [DecidableEq K]
+
+theorem getD_replicate_zero (n i : ℕ) : (List.replicate n (0 : K)).getD i 0 = 0 := by
+  by_cases h : i < n <;> simp [List.getD_eq_getElem?_getD, h]
+
+theorem padTo_of_length (n : ℕ) (l : List K) (h : l.length = n) : padTo n l = l := by
+  apply List.ext_getElem (by rw [length_padTo, h])
+  intro i h1 h2
+  have := getD_padTo n l i
+  rw [length_padTo] at h1
+  rw [if_pos h1] at this
+  simpa [List.getD_eq_getElem?_getD, h1, h2, length_padTo] using this
+
+theorem padTo_nil (n : ℕ) : padTo n ([] : List K) = List.replicate n 0 := by
+  rw [List.eq_replicate_iff]
+  refine ⟨length_padTo n _, ?_⟩
+  intro b hb
+  simp only [padTo, List.mem_map] at hb
+  obtain ⟨i, _, rfl⟩ := hb
+  simp
+
+theorem dmv_zero (n m : ℕ) (P : ℕ → ℕ → K) (c : List K) (hc : ∀ j, c.getD j 0 = 0) :
+    dmv n m P c = List.replicate n 0 := by
+  rw [List.eq_replicate_iff]
+  refine ⟨length_dmv n m P c, ?_⟩
+  intro b hb
+  simp only [dmv, List.mem_map] at hb
+  obtain ⟨i, _, rfl⟩ := hb
+  rw [denseDot_eq_sum]
+  apply sum_eq_zero; intro j _; rw [hc j, mul_zero]
+
+theorem padAdd_replicate_zero (u : List K) : padAdd u (List.replicate u.length 0) = u := by
+  induction u with
+  | nil => simp [padAdd]
+  | cons a u ih => simp [padAdd, List.replicate_succ, ih]
+
+theorem scatterAdd_zero (x : List K) (ind : List ℕ) :
+    scatterAdd x ind (List.replicate ind.length 0) = x := by
+  induction ind generalizing x with
+  | nil => simp [scatterAdd]
+  | cons i0 ind ih =>
+    simp only [scatterAdd, List.length_cons, List.replicate_succ, List.zip_cons_cons, List.foldl_cons,
+      add_zero]
+    rw [set_getD_self]
+    exact ih x
+
+theorem scatterSet_zero (x : List K) (ind : List ℕ) (hx : ∀ j, x.getD j 0 = 0) :
+    scatterSet x ind (List.replicate ind.length 0) = x := by
+  induction ind with
+  | nil => simp [scatterSet]
+  | cons i0 ind ih =>
+    simp only [scatterSet, List.length_cons, List.replicate_succ, List.zip_cons_cons, List.foldl_cons]
+    have : x.set i0 0 = x := by
+      have h := set_getD_self x i0
+      rwa [hx i0] at h
+    rw [this]
+    exact ih
+
+theorem gatherL_zero (v : List K) (ind : List ℕ) (h : ∀ i ∈ ind, v.getD i 0 = 0) :
+    gatherL v ind = List.replicate ind.length 0 := by
+  rw [List.eq_replicate_iff]
+  refine ⟨length_gatherL' v ind, ?_⟩
+  intro b hb
+  simp only [gatherL, List.mem_map] at hb
+  obtain ⟨i, hi, rfl⟩ := hb
+  exact h i hi
+
+theorem iter_fixed {β : Type} (f : β → β) (x : β) (h : f x = x) (k : ℕ) : iter f k x = x := by
+  induction k with
+  | zero => rfl
+  | succ k ih => simp only [iter]; rw [h]; exact ih
+
+theorem gsRowsSweep_fixed (n : ℕ) (A : ℕ → ℕ → K) (b : ℕ → K) (idx : List ℕ) (x : List K)
+    (h : ∀ i ∈ idx, i < n ∧ ∑ j ∈ range n, A i j * x.getD j 0 = b i) :
+    gsRowsSweep (denseRow n A) b idx x = x := by
+  induction idx with
+  | nil => rfl
+  | cons i idx ih =>
+    obtain ⟨hi, hr⟩ := h i List.mem_cons_self
+    simp only [gsRowsSweep, List.foldl_cons]
+    have hd : ((denseRow n A i).filter (fun e => e.1 = i)).length ≤ 1 := by
+      rw [denseRow_diag]; split <;> omega
+    have hrow : ∑ j ∈ range n, rowVal (denseRow n A i) j * x.getD j 0 = b i := by
+      rw [← hr]; apply sum_congr rfl; intro j hj
+      rw [rowVal_denseRow, if_pos (mem_range.mp hj)]
+    rw [gsUpdate_fixed (denseRow n A i) b x i n hd (denseRow_cols n A i) hi hrow]
+    exact ih (fun j hj => h j (List.mem_cons_of_mem _ hj))
+
+/-- the residual `f − As[lv]·x` vanishes on the non-Dirichlet rows of level `lv` -/
+def ResZ (S : MGSetup K) (dir : ℕ → List ℕ) (lv : ℕ) (x f : List K) : Prop :=
+  ∀ i < S.size lv, i ∉ dir lv → f.getD i 0 - ∑ j ∈ range (S.size lv), S.A lv i j * x.getD j 0 = 0
+
+/-- structural hypotheses for the fixed-point theorem -/
+structure MGFixHyp (S : MGSetup K) (dir : ℕ → List ℕ) : Prop where
+  /-- smoothing sets lie in the level and contain no Dirichlet dof (`smoothing_sets`) -/
+  ind : ∀ lv ≤ S.top, ∀ i ∈ S.ind lv, i < S.size lv ∧ i ∉ dir lv
+  /-- non-Dirichlet coarse dofs are prolongated to non-Dirichlet fine dofs only -/
+  prol : ∀ lv < S.top, ∀ j < S.size lv, j ∉ dir lv → ∀ k < S.size (lv + 1), k ∈ dir (lv + 1) → S.P lv k j = 0
+  /-- the direct solvers map `0` to `0` -/
+  solve0 : ∀ lv ≤ S.top, ∀ m, S.subSolve lv (List.replicate m 0) = List.replicate m 0
+
+theorem mgSmoothC_fixed (S : MGSetup K) (dir : ℕ → List ℕ) (h : MGFixHyp S dir) (post : Bool) (lv : ℕ)
+    (hlv : lv ≤ S.top) (x f : LVec K) (hres : ResZ S dir lv x.d f.d) :
+    (mgSmoothC S post lv x f).d = padTo (S.size lv) x.d := by
+  have hrow : ∀ i ∈ S.ind lv, i < S.size lv ∧
+      ∑ j ∈ range (S.size lv), S.A lv i j * (padTo (S.size lv) x.d).getD j 0 = f.d.getD i 0 := by
+    intro i hi
+    obtain ⟨hin, hnd⟩ := h.ind lv hlv i hi
+    refine ⟨hin, ?_⟩
+    have := hres i hin hnd
+    have e : ∑ j ∈ range (S.size lv), S.A lv i j * (padTo (S.size lv) x.d).getD j 0
+        = ∑ j ∈ range (S.size lv), S.A lv i j * x.d.getD j 0 := by
+      apply sum_congr rfl; intro j hj; rw [getD_padTo, if_pos (mem_range.mp hj)]
+    rw [e]; exact (sub_eq_zero.mp this).symm
+  have hrev : ∀ i ∈ (S.ind lv).reverse, i < S.size lv ∧
+      ∑ j ∈ range (S.size lv), S.A lv i j * (padTo (S.size lv) x.d).getD j 0 = f.d.getD i 0 :=
+    fun i hi => hrow i (List.mem_reverse.mp hi)
+  have hrun : ∀ sw, gaussSeidel (gsRowsSweep (denseRow (S.size lv) (S.A lv)) (fun i => f.d.getD i 0))
+      (S.size lv) (some (S.ind lv)) S.steps sw (padTo (S.size lv) x.d) = padTo (S.size lv) x.d := by
+    intro sw
+    unfold gaussSeidel
+    simp only [Option.getD_some]
+    cases sw with
+    | forward => exact iter_fixed _ _ (gsRowsSweep_fixed _ _ _ _ _ hrow) _
+    | backward => exact iter_fixed _ _ (gsRowsSweep_fixed _ _ _ _ _ hrev) _
+    | symmetric =>
+      refine iter_fixed _ _ ?_ _
+      show gsRowsSweep _ _ _ (gsRowsSweep _ _ _ _) = _
+      rw [gsRowsSweep_fixed _ _ _ _ _ hrow, gsRowsSweep_fixed _ _ _ _ _ hrev]
+  by_cases hsm : S.smoother < 4
+  · have h4 : S.smoother = 0 ∨ S.smoother = 1 ∨ S.smoother = 2 ∨ S.smoother = 3 := by omega
+    rcases h4 with h' | h' | h' | h' <;> simp only [mgSmoothC, h'] <;> exact hrun _
+  · obtain ⟨k, hk⟩ : ∃ k, S.smoother = k + 4 := ⟨S.smoother - 4, by omega⟩
+    cases post with
+    | true => simp only [mgSmoothC, hk]; rfl
+    | false =>
+      simp only [mgSmoothC, hk]
+      have hg : gatherL (padSub (padTo (S.size lv) f.d)
+          (dmv (S.size lv) (S.size lv) (S.A lv) (padTo (S.size lv) x.d))) (S.ind lv)
+          = List.replicate (S.ind lv).length 0 := by
+        apply gatherL_zero
+        intro i hi
+        obtain ⟨hin, hr⟩ := hrow i hi
+        rw [getD_padSub, getD_padTo, if_pos hin, getD_dmv, if_pos hin, hr, sub_self]
+      rw [hg, h.solve0 lv hlv, scatterAdd_zero]
+      try rfl
+
+theorem ResZ_congr (S : MGSetup K) (dir : ℕ → List ℕ) (lv : ℕ) (x x' f : List K)
+    (hx : ∀ j < S.size lv, x.getD j 0 = x'.getD j 0) (h : ResZ S dir lv x f) : ResZ S dir lv x' f := by
+  intro i hi hd
+  have e : ∑ j ∈ range (S.size lv), S.A lv i j * x'.getD j 0 = ∑ j ∈ range (S.size lv), S.A lv i j * x.getD j 0 :=
+    sum_congr rfl (fun j hj => by rw [hx j (mem_range.mp hj)])
+  rw [e]; exact h i hi hd
+
+/-- **Fixed point of `local_mg_step`** (all level counts, all five smoothers): on every
+level the cycle started from `0` with a right-hand side vanishing on the non-Dirichlet dofs
+returns `0`, and on every level `≥ 1` an iterate whose residual vanishes on the non-Dirichlet
+rows is returned unchanged. -/
+theorem localMgStepAt_fixed (S : MGSetup K) (dir : ℕ → List ℕ) (h : MGFixHyp S dir) :
+    ∀ lv ≤ S.top,
+      (∀ f : LVec K, (∀ j < S.size lv, j ∉ dir lv → f.d.getD j 0 = 0) →
+        (localMgStepAt S lv 0 f).d = List.replicate (S.size lv) 0) ∧
+      (1 ≤ lv → ∀ x f : LVec K, ResZ S dir lv x.d f.d →
+        (localMgStepAt S lv x f).d = padTo (S.size lv) x.d) := by
+  intro lv
+  induction lv with
+  | zero =>
+    intro _
+    refine ⟨fun f hf => ?_, fun h1 => absurd h1 (by omega)⟩
+    show (mgSolve0C S 0 f).d = _
+    unfold mgSolve0C
+    have hg : gatherL (padTo (S.size 0) f.d) (S.ind 0) = List.replicate (S.ind 0).length 0 := by
+      apply gatherL_zero
+      intro i hi
+      obtain ⟨hin, hnd⟩ := h.ind 0 (Nat.zero_le _) i hi
+      rw [getD_padTo, if_pos hin]; exact hf i hin hnd
+    show scatterSet (padTo (S.size 0) ([] : List K)) _ _ = _
+    rw [hg, h.solve0 0 (Nat.zero_le _), padTo_nil]
+    exact scatterSet_zero _ _ (fun j => getD_replicate_zero _ j)
+  | succ lv ih =>
+    intro hle
+    have ihA := (ih (by omega)).1
+    have stepB : ∀ x f : LVec K, ResZ S dir (lv + 1) x.d f.d →
+        (localMgStepAt S (lv + 1) x f).d = padTo (S.size (lv + 1)) x.d := by
+      intro x f hres
+      rw [localMgStepAt_succ']
+      set n := S.size (lv + 1) with hn
+      have hx1 : (mgSmoothC S false (lv + 1) x f).d = padTo n x.d := mgSmoothC_fixed S dir h false (lv + 1) hle x f hres
+      have hxp : ∀ j < n, (padTo n x.d).getD j 0 = x.d.getD j 0 := fun j hj => by rw [getD_padTo, if_pos hj]
+      -- the restricted residual vanishes on the non-Dirichlet coarse dofs
+      have hrc : ∀ j < S.size lv, j ∉ dir lv →
+          (dmvT n (S.size lv) (S.P lv) (f - ⟨dmv n n (S.A (lv + 1)) (mgSmoothC S false (lv + 1) x f).d⟩).d).getD j 0 = 0 := by
+        intro j hj hd
+        rw [getD_dmvT, if_pos hj]
+        apply sum_eq_zero; intro k hk
+        have hk' := mem_range.mp hk
+        by_cases hkd : k ∈ dir (lv + 1)
+        · rw [h.prol lv (by omega) j hj hd k hk' hkd, zero_mul]
+        · have : (f - ⟨dmv n n (S.A (lv + 1)) (mgSmoothC S false (lv + 1) x f).d⟩ : LVec K).d.getD k 0 = 0 := by
+            show (padSub f.d (dmv n n (S.A (lv + 1)) (mgSmoothC S false (lv + 1) x f).d)).getD k 0 = 0
+            rw [getD_padSub, getD_dmv, if_pos hk', hx1]
+            have e : ∑ l ∈ range n, S.A (lv + 1) k l * (padTo n x.d).getD l 0
+                = ∑ l ∈ range n, S.A (lv + 1) k l * x.d.getD l 0 :=
+              sum_congr rfl (fun l hl => by rw [hxp l (mem_range.mp hl)])
+            rw [e]; exact hres k hk' hkd
+          rw [this, mul_zero]
+      have hc := ihA ⟨dmvT n (S.size lv) (S.P lv)
+        (f - ⟨dmv n n (S.A (lv + 1)) (mgSmoothC S false (lv + 1) x f).d⟩).d⟩ hrc
+      have hPc : dmv n (S.size lv) (S.P lv)
+          (localMgStepAt S lv 0 ⟨dmvT n (S.size lv) (S.P lv)
+            (f - ⟨dmv n n (S.A (lv + 1)) (mgSmoothC S false (lv + 1) x f).d⟩).d⟩).d = List.replicate n 0 := by
+        apply dmv_zero; intro j; rw [hc]; exact getD_replicate_zero _ j
+      have hx2 : (mgSmoothC S false (lv + 1) x f +
+          ⟨dmv n (S.size lv) (S.P lv) (localMgStepAt S lv 0 ⟨dmvT n (S.size lv) (S.P lv)
+            (f - ⟨dmv n n (S.A (lv + 1)) (mgSmoothC S false (lv + 1) x f).d⟩).d⟩).d⟩ : LVec K).d = padTo n x.d := by
+        show padAdd (mgSmoothC S false (lv + 1) x f).d _ = _
+        rw [hPc, hx1]
+        have := padAdd_replicate_zero (padTo n x.d)
+        rwa [length_padTo] at this
+      rw [mgSmoothC_fixed S dir h true (lv + 1) hle _ f
+        (by rw [hx2]; exact ResZ_congr S dir (lv + 1) x.d _ f.d (fun j hj => (hxp j hj).symm) hres), hx2]
+      exact padTo_of_length n _ (length_padTo n _)
+    refine ⟨fun f hf => ?_, fun _ => stepB⟩
+    have := stepB 0 f (by
+      intro i hi hd
+      show f.d.getD i 0 - ∑ j ∈ range (S.size (lv + 1)), S.A (lv + 1) i j * ([] : List K).getD j 0 = 0
+      have hz : ∑ j ∈ range (S.size (lv + 1)), S.A (lv + 1) i j * ([] : List K).getD j 0 = 0 :=
+        sum_eq_zero (fun j _ => by simp)
+      rw [hz, sub_zero]; exact hf i hi hd)
+    rw [this]; exact padTo_nil _
+
+end fixedpoint
+
 end Pyiga.Relax
